@@ -173,15 +173,6 @@ func logEntries(body []byte) []logEntry {
 	return out
 }
 
-// kind drops the setting name from a class: what a logger writes does not
-// depend on which setting it is.
-func kind(class string) string {
-	if strings.HasPrefix(class, "setting:") {
-		return "setting"
-	}
-	return class
-}
-
 // dev instrumentation (TestDev only)
 var (
 	devTimes map[string]time.Duration
@@ -255,12 +246,12 @@ func (wd *world) exec(rq Req) (status int, nonEmpty bool, leaks []leak, resolved
 					add(fmt.Sprintf("%s leaks %s (%s) inside a connection URL", rq.Route, h.class, h.form), h)
 					continue
 				}
-				add(fmt.Sprintf("%s leaks %s (%s) logged by %s", rq.Route, kind(h.class), h.form, e.id), h)
+				add(fmt.Sprintf("%s leaks %s (%s) logged by %s", rq.Route, h.class, h.form, e.id), h)
 			}
 		}
 		for _, h := range hits {
 			if !attributed[h.class] {
-				add(fmt.Sprintf("%s leaks %s (%s) logged by ?", rq.Route, kind(h.class), h.form), h)
+				add(fmt.Sprintf("%s leaks %s (%s) logged by ?", rq.Route, h.class, h.form), h)
 			}
 		}
 	} else {
